@@ -16,7 +16,8 @@
    Quantifiers: every level (all 3^4 action records, hence the 24 reachable maps), every scenario.
    The theorems of the last part (audit round, proofs in theories/C02_Struct.v, by induction over the
    capability list) need no input contract at all. *)
-From NV Require Import Base Regex Generated C02_Levels VerifyCore C02_Model C02_Core C02_Proofs C02_Struct.
+From NV Require Import Base Regex Generated C02_Levels VerifyCore C02_Model C02_Core C02_Proofs C02_Struct C02_Versions.
+From NV Require C20_Semver.
 Open Scope string_scope.
 Open Scope list_scope.
 
@@ -396,6 +397,72 @@ Print Assumptions C02_rev_capability_not_consulted.
 Theorem C02_model_meets_oracle_all_partial : forall i, fp i = 0%N -> spec_all i (model i) = true.
 Proof. exact model_spec_all_partial. Qed.
 Print Assumptions C02_model_meets_oracle_all_partial.
+
+(* ================================================================== *)
+(* "too old", in SemVer terms (the version facts computed, not assumed) *)
+(* ================================================================== *)
+
+(* [versioned sc version caps]: the scenario sc with the demanded plugin installed, answering
+   get-plugin-metadata with this version string and these capabilities; its three version facts are
+   computed from the strings by the model of internal/semver.IsValid (the regular expression of the
+   source) and x/mod/semver.Compare of property C20. [C20_Semver.prec_of] is SemVer 2.0.0 precedence. *)
+
+(* a well-formed demand with minimum m and an installed plugin whose valid version precedes m: rejected as
+   inconclusive right after integrity — whatever the level, the validations, the capabilities and the
+   plugin's answer; nothing else is performed, the plugin is not executed *)
+Theorem C02_too_old_rejects : forall lvl sc version caps n m,
+  s_integrity_ok sc = true -> s_nonstring_crit sc = false ->
+  s_plugin_attr sc = AStr n -> blank n = false ->
+  s_minver_attr sc = AStr m -> blank m = false -> C20_Semver.sv_valid m = true ->
+  C20_Semver.sv_valid version = true -> C20_Semver.prec_of version m = Lt ->
+  verify_core lvl (versioned sc version caps)
+  = mk_obs EInconclusive [mk_res TIntegrity Enforce false] false [n] None.
+Proof. exact too_old_rejects. Qed.
+Print Assumptions C02_too_old_rejects.
+
+(* conversely a valid version that does not precede the demanded minimum (or no minimum demanded), with
+   some verification capability, is usable: no plugin problem arises from discovery *)
+Theorem C02_not_too_old_usable : forall sc version caps, demand_ok sc ->
+  C20_Semver.sv_valid version = true ->
+  (s_minver_attr sc = AAbsent
+   \/ exists m, s_minver_attr sc = AStr m /\ C20_Semver.sv_valid m = true /\ C20_Semver.prec_of version m <> Lt) ->
+  verification_caps caps <> [] ->
+  usable_caps (versioned sc version caps) = Some (verification_caps caps)
+  /\ plugin_unusable (versioned sc version caps) = false.
+Proof. exact not_too_old_usable. Qed.
+Print Assumptions C02_not_too_old_usable.
+
+(* a version that is not SemVer is rejected like a too old one *)
+Theorem C02_invalid_version_rejects : forall lvl sc version caps n,
+  s_integrity_ok sc = true -> s_nonstring_crit sc = false ->
+  s_plugin_attr sc = AStr n -> blank n = false ->
+  (s_minver_attr sc = AAbsent
+   \/ exists m, s_minver_attr sc = AStr m /\ blank m = false /\ C20_Semver.sv_valid m = true) ->
+  C20_Semver.sv_valid version = false ->
+  verify_core lvl (versioned sc version caps)
+  = mk_obs EInconclusive [mk_res TIntegrity Enforce false] false [n] None.
+Proof. exact invalid_version_rejects. Qed.
+Print Assumptions C02_invalid_version_rejects.
+
+(* non-vacuity: 1.2.0 against the minimum 1.10.0 is too old (numeric, not lexical, comparison), a release
+   candidate precedes its release, build metadata is ignored; 1.10.0 against 1.2.0 is usable *)
+Example C02_example_versions :
+  let sc := mk_sc true (AStr "plug") (AStr "1.10.0") false [] false 0 true false true true PMNil PErr in
+  let sc2 := mk_sc true (AStr "plug") (AStr "2.0.0") false [] false 0 true false true true PMNil PErr in
+  let sc3 := mk_sc true (AStr "plug") (AStr "1.2.0") false [] false 0 true false true true PMNil
+                   (PResp [] (Some true) None) in
+  C20_Semver.sv_valid "1.10.0" = true /\ C20_Semver.sv_valid "1.2.0" = true
+  /\ C20_Semver.prec_of "1.2.0" "1.10.0" = Lt /\ C20_Semver.prec_of "2.0.0-rc.1" "2.0.0" = Lt
+  /\ o_err (verify_core (mk_level Log Log Log Log) (versioned sc "1.2.0" [CapTI])) = EInconclusive
+  /\ o_err (verify_core (mk_level Log Log Log Log) (versioned sc2 "2.0.0-rc.1" [CapTI])) = EInconclusive
+  /\ demand_ok sc3
+  /\ accepted (verify_core (mk_level Enforce Enforce Enforce Enforce) (versioned sc3 "1.10.0" [CapTI])) = true
+  /\ accepted (verify_core (mk_level Enforce Enforce Enforce Enforce) (versioned sc3 "1.2.0+build.5" [CapTI])) = true
+  /\ o_err (verify_core (mk_level Log Log Log Log) (versioned sc3 "01.2.0" [CapTI])) = EInconclusive.
+Proof.
+  repeat split; try (vm_compute; reflexivity).
+  exists "plug". split; [reflexivity|]. split; [reflexivity|]. right. exists "1.2.0". repeat split; vm_compute; reflexivity.
+Qed.
 
 (* ------------------------------------------------------------------ *)
 (* non-vacuity of the audit-round theorems                             *)
